@@ -263,9 +263,19 @@ def install(prog):
         fmt_push(a[1], D(a[0]).fields[0])
         return ok(UNIT)
 
+    @B('std::io::Error::new', 'std::io::Error::other')
+    def b_io_error_new(ctx, a, callee):
+        msg = D(a[-1])
+        if type(msg) is Agg and msg.ty == 'SimpleError':
+            msg = msg.fields[0]
+        return Agg('io::Error', None, (msg, D(a[0]) if len(a) > 1 else None))
+
     @B('std::io::Error::kind')
     def b_io_error_kind(ctx, a, callee):
-        return Agg('ErrorKind', 0, ())
+        e = D(a[0])
+        if len(e.fields) > 1 and e.fields[1] is not None:
+            return e.fields[1]
+        return Agg('std::io::ErrorKind', 0, ())
 
     @B('Path::exists', 'Path::is_file')
     def b_path_exists(ctx, a, callee):
